@@ -28,9 +28,10 @@ func doGuarded(c *Ctx, s *Sess, o EOp, what string) string {
 }
 
 func runC03(c *Ctx) {
-	c.Rule = "structured and malformed streams: (0) Enforce over conditional role graphs with cycles, in a child process (a stack overflow is fatal); (A) every model family of C01 plus built-in-heavy matchers (keyMatch, regexMatch, ipMatch, eval) with requests of wrong arity, non-string values into g() and built-ins, attribute access on strings and missing attributes, unknown EnforceContext names, operands on which built-ins panic, unparsable and self-referential eval() rules; (B) policy text for the file and string adapters assembled from a line alphabet (valid rules, wrong arity, unknown and empty types, quoted / unbalanced / bare quotes, comments, blanks, CRLF, NUL, commas only, an over-long line), under every effect incl. subjectPriority with cyclic role graphs and explicit priority; every call runs under a 5 s watchdog with recover at the harness boundary; the Lean model must predict exactly the class (decision / error) and the loaded rules; arbitrary invalid-UTF-8 bytes are run on the implementation only; non-trivial = a case containing both a successful and a failing call; distinct = case text"
+	c.Rule = "structured and malformed streams: (0) Enforce over conditional role graphs with cycles, in a child process (a stack overflow is fatal), and subject-priority loads over large hierarchies (chains of up to 40 diamonds, fully connected clusters, a complete layered DAG) in a child process with a time and address-space limit; (A) every model family of C01 plus built-in-heavy matchers (keyMatch, regexMatch, ipMatch, eval) with requests of wrong arity, non-string values into g() and built-ins, attribute access on strings and missing attributes, unknown EnforceContext names, operands on which built-ins panic, unparsable and self-referential eval() rules; (B) policy text for the file and string adapters assembled from a line alphabet (valid rules, wrong arity, unknown and empty types, quoted / unbalanced / bare quotes, comments, blanks, CRLF, NUL, commas only, an over-long line), under every effect incl. subjectPriority with cyclic role graphs and explicit priority; every call runs under a 5 s watchdog with recover at the harness boundary; the Lean model must predict exactly the class (decision / error) and the loaded rules; arbitrary invalid-UTF-8 bytes are run on the implementation only; non-trivial = a case containing both a successful and a failing call; distinct = case text"
 	// ---- (0) conditional role managers (not modelled): cycles must not hang or crash Enforce (child process)
 	condCycles(c)
+	subjectDags(c)
 	// ---- (A) enforcement
 	fams := c01Families()
 	weird := func(f Family) [][]V {
